@@ -125,6 +125,7 @@ func (f *frame) execCall(instr ssa.Value, call *ssa.CallCommon) {
 		recv := f.val(call.Value)
 		key := v.eng.ifaceKey(call.Value.Type(), call.Method)
 		if fc := v.eng.db.Funcs[key]; fc != nil {
+			v.trusted["assumed contract: "+key] = true
 			f.safety("nil", Not(Eq(asTerm(recv), ZeroOf(SIface))), call.Pos())
 			sig := call.Method.Type().(*types.Signature)
 			ptypes := []types.Type{call.Value.Type()}
